@@ -1,5 +1,5 @@
 """C05 - no valid schedule is lost: infeasibility verdicts are truthful."""
-from .. import cands, engine, known, probe, spec as S
+from .. import adapter, cands, engine, known, probe, spec as S
 from ..runner import run_hypothesis
 
 ID = "C05"
@@ -38,6 +38,9 @@ def prop(ctx, case):
                  "probe": {"kind": "public_solve", "valid_candidate": out["valid"][0] if out["valid"] else None},
                  "observed": repr(exc), "signature": {"rule": "solve_raised", "classes": engine.classes_of(case["spec"])}}
             )
+        elif (sol is False or sol is None) and "unknown" in str(adapter.z3solver(h).check()):
+            ctx.inconclusive += 1  # z3 gave up (typically the quantified encoding of a concurrent buffer)
+            ctx.event("public_solve_unknown")
         elif sol is False or sol is None:
             ctx.violation(
                 {"check": "C05.verdict", "rule": "no_solution_reported_but_valid_schedule_exists", "spec": case["spec"], "seed": case["seed"],
